@@ -395,12 +395,12 @@ def run(prop: str, tier: str) -> int:
             "tree it was given) is unchanged. Payload equality inside signatures is identity of the solver terms.")
     rep.bounds["search_grid"] = "find_nodes/find_node check: coefficients that must be concrete range over {-2, 0, 1, 3, 6, 0.5}"
     rep.assumptions = ["tree families and payload domains as in C01/C02; can_apply_to raising is recorded, not judged"]
-    budget = 420 if tier == "quick" else 720
+    budget = 420 if tier == "quick" else 900
     items = [(prop, s, name) for s in sks for name, _ in RULES
              if not (s in V.AM_ONLY and name.startswith("DistributiveFactorOut"))]
     random.Random(seed()).shuffle(items)
     items.sort(key=lambda it: -sk_size(it[1]))  # biggest first: better balance over the workers
-    SEARCH_MAX["n"] = 9 if tier == "quick" else 15
+    SEARCH_MAX["n"] = 9 if tier == "quick" else 10  # measured: the search sub-check on 11-node trees costs ~3 s per (tree, rule)
     rep.bounds["search_max_nodes"] = SEARCH_MAX["n"]
     collect(rep, pmap(case_worker, items, budget_s=budget, chunk=6))
     from . import sequences
